@@ -1,6 +1,6 @@
 (** C08 — Truth maintenance keeps exactly the facts that still have support.
     Statements only; proofs in Proofs/TmsProofs.v. *)
-From RRE Require Import Base.Sx Model.Tms Proofs.TmsProofs.
+From RRE Require Import Base.Sx Model.Tms Proofs.TmsProofs Proofs.TmsSupportProofs.
 Open Scope N_scope.
 
 (** A fact that carries an explicit justification is never put on a cascade list, for every
@@ -25,6 +25,39 @@ Theorem C08_only_retract_removes : forall e o h,
 Proof. exact nonretract_keeps_live. Qed.
 Print Assumptions C08_only_retract_removes.
 
+(** THE SUPPORT INVARIANT, for every history of any length in which premises are present when a justification
+    is recorded and extra justifications go to present facts ([wf_run]).  [supported e h]: some justification of h
+    is explicit or has all its premises present.  [targets]: handles hit by an effective retraction.
+    A fact that was issued and never itself retracted is present EXACTLY when it is supported (chains, diamonds,
+    several justifications, shared premises, cycles: no restriction on the graph); retracted targets stay absent. *)
+Theorem C08_present_iff_supported : forall ops, wf_run init ops ->
+  (forall h, In h (map fst (wm (exec init ops))) -> ~ In h (targets [] init ops) ->
+     (live (wm (exec init ops)) h = true <-> supported (exec init ops) h))
+  /\ (forall h, In h (targets [] init ops) -> live (wm (exec init ops)) h = false).
+Proof. exact support_invariant. Qed.
+Print Assumptions C08_present_iff_supported.
+
+(** A retraction removes, in the same call, its target and exactly the facts it leaves without support. *)
+Theorem C08_retraction_removes_exactly : forall ops x, wf_run init ops ->
+  live (wm (exec init ops)) x = true ->
+  forall h, live (wm (exec init ops)) h = true ->
+    (live (wm (next (exec init ops) (Retract x))) h = false <-> h = x \/ ~ supported (next (exec init ops) (Retract x)) h).
+Proof. exact retract_removes_exactly. Qed.
+Print Assumptions C08_retraction_removes_exactly.
+
+(** Explicitly inserted facts disappear only when they are themselves retracted (whole histories). *)
+Theorem C08_explicit_present_unless_retracted : forall ops h, wf_run init ops ->
+  has_explicit (justs (exec init ops)) h = true -> In h (map fst (wm (exec init ops))) ->
+  ~ In h (targets [] init ops) -> live (wm (exec init ops)) h = true.
+Proof. exact explicit_only_by_retraction. Qed.
+Print Assumptions C08_explicit_present_unless_retracted.
+
+(** The recursion bound of the model's cascade is never reached: the model's retraction is the code's
+    unbounded recursion (which therefore terminates on every justification graph, cyclic ones included). *)
+Theorem C08_cascade_terminates : forall e x, snd (step e (Retract x)) = false.
+Proof. exact retract_never_out_of_fuel. Qed.
+Print Assumptions C08_cascade_terminates.
+
 (** non-vacuity: diamond with a second justification; retracting one premise keeps the
     doubly-justified fact, retracting the other removes it and its dependent. *)
 Example C08_example :
@@ -35,3 +68,7 @@ Example C08_example :
    [false; true; true; true]; [false; false; false; false]]
   /\ ok ops (run ops) = true.
 Proof. vm_compute. split; reflexivity. Qed.
+Example C08_example_wf :
+  let ops := [InsExplicit; InsExplicit; InsLogical [1]; AddJust 3 [2]; InsLogical [3]; Retract 1; Retract 2] in
+  wf_run init ops /\ targets [] init ops = [2; 1].
+Proof. cbn -[live]. repeat split; try (intros p [<-|[]]; vm_compute; reflexivity); vm_compute; reflexivity. Qed.
